@@ -96,6 +96,19 @@ func c08Run(r *core.Run) {
 	}
 	now := s.Node.Now()
 	m := world.GenResponse(t, s.IdP, s.Fed, now, n, true)
+	if t.Int(12, "c08.big") == 1 {
+		// several hundred elements (still below the validator's traversal budget of 1000 per pass)
+		a0 := m.Assertions[0]
+		a0.HasAttrStmt = true
+		na := 120 + t.Int(140, "c08.big.n")
+		a0.Attrs = nil
+		for i := 0; i < na; i++ {
+			a0.Attrs = append(a0.Attrs, world.LAttr{Name: fmt.Sprintf("big%d", i), Values: []string{"v1", "v2"}})
+		}
+		m.Assertions = m.Assertions[:1]
+		n = 1
+		r.Probe("large_document")
+	}
 	noAttrStmt := t.Chance(100, "c08.noattrstmt")
 	if noAttrStmt {
 		m.Assertions[0].HasAttrStmt, m.Assertions[0].Attrs = false, nil
